@@ -295,10 +295,10 @@ func jxExo(t *simrt.Tape) string { return jxExotic[t.Choose(simrt.KValue, len(jx
 func jxRawData(t *simrt.Tape, keys []string) string {
 	var parts []string
 	for _, k := range keys {
-		switch t.Choose(simrt.KWorkload, 8) {
-		case 6: // missing
+		switch t.Choose(simrt.KWorkload, 24) {
+		case 22: // missing
 			continue
-		case 7: // duplicated
+		case 23: // duplicated
 			parts = append(parts, fmt.Sprintf("%q:%s", k, jxExo(t)))
 		}
 		parts = append(parts, fmt.Sprintf("%q:%s", k, jxExo(t)))
@@ -444,14 +444,14 @@ func jxSpells(t *simrt.Tape, n int) *gexf12.Spells {
 }
 
 func jxColor(t *simrt.Tape) *gexf12.Color {
-	if !jxOpt(t, 3) {
+	if !jxOpt(t, 6) {
 		return nil
 	}
 	return &gexf12.Color{R: byte(t.Choose(simrt.KValue, 256)), G: byte(t.Choose(simrt.KValue, 256)), B: 255, A: []float64{0, 0.5, 1}[t.Choose(simrt.KValue, 3)], Spells: jxSpells(t, 4)}
 }
 
 func jxAttValues(t *simrt.Tape) *gexf12.AttValues {
-	if !jxOpt(t, 3) {
+	if !jxOpt(t, 5) {
 		return nil
 	}
 	a := &gexf12.AttValues{}
@@ -462,14 +462,14 @@ func jxAttValues(t *simrt.Tape) *gexf12.AttValues {
 }
 
 func jxGexfNode(t *simrt.Tape, i, depth int) gexf12.Node {
-	n := gexf12.Node{ID: jxID(t, jxXMLStrings, i), Label: jxXStr(t), AttValues: jxAttValues(t), Spells: jxSpells(t, 5), Color: jxColor(t)}
-	if jxOpt(t, 4) {
+	n := gexf12.Node{ID: jxID(t, jxXMLStrings, i), Label: jxXStr(t), AttValues: jxAttValues(t), Spells: jxSpells(t, 8), Color: jxColor(t)}
+	if jxOpt(t, 6) {
 		n.Position = &gexf12.Position{X: jxFloats[t.Choose(simrt.KValue, len(jxFloats))], Y: -1.5, Z: 0}
 	}
-	if jxOpt(t, 4) {
+	if jxOpt(t, 6) {
 		n.Size = &gexf12.Size{Value: jxFloats[t.Choose(simrt.KValue, len(jxFloats))], Spells: jxSpells(t, 3)}
 	}
-	if jxOpt(t, 4) {
+	if jxOpt(t, 6) {
 		n.Shape = &gexf12.NodeShape{Shape: []string{"disc", "image", ""}[t.Choose(simrt.KValue, 3)], URI: jxXStr(t), Spells: jxSpells(t, 4)}
 	}
 	if jxOpt(t, 5) {
@@ -478,7 +478,7 @@ func jxGexfNode(t *simrt.Tape, i, depth int) gexf12.Node {
 	if jxOpt(t, 5) {
 		n.Parents = &gexf12.Parents{Parents: []gexf12.Parent{{For: jxXStr(t)}}}
 	}
-	if depth == 0 && jxOpt(t, 4) {
+	if depth == 0 && jxOpt(t, 6) {
 		n.Nodes = &gexf12.Nodes{Nodes: []gexf12.Node{jxGexfNode(t, i+10, 1)}}
 		if jxOpt(t, 2) {
 			n.Edges = &gexf12.Edges{Count: 1, Edges: []gexf12.Edge{{ID: "e", Source: "a", Target: "b"}}}
@@ -493,7 +493,7 @@ func jxRunGexf(c *Ctx) *Violation {
 	if jxOpt(t, 4) {
 		g.Variant = jxXStr(t)
 	}
-	if jxOpt(t, 2) {
+	if jxOpt(t, 3) {
 		g.Meta = &gexf12.Meta{Creator: jxXStr(t), Keywords: jxXStr(t), Description: jxXStr(t)}
 		if !jxOpt(t, 3) {
 			g.Meta.LastModified = time.Date(1+t.Choose(simrt.KValue, 9999), time.Month(1+t.Choose(simrt.KValue, 12)), 1+t.Choose(simrt.KValue, 28), 0, 0, 0, 0, time.UTC)
@@ -505,14 +505,14 @@ func jxRunGexf(c *Ctx) *Violation {
 	if jxOpt(t, 4) {
 		gr.IDType, gr.TimeFormat, gr.Start, gr.EndOpen = "string", "date", jxXStr(t), jxXStr(t)
 	}
-	for i, k := 0, t.Choose(simrt.KWorkload, 3); i < k; i++ {
+	for i, k := 0, t.Choose(simrt.KWorkload, 2); i < k; i++ {
 		as := gexf12.Attributes{Class: []string{"node", "edge", ""}[t.Choose(simrt.KValue, 3)], Mode: gr.Mode}
 		for j, m := 0, t.Choose(simrt.KWorkload, 3); j < m; j++ {
 			as.Attributes = append(as.Attributes, gexf12.Attribute{ID: strconv.Itoa(j), Title: jxXStr(t), Type: []string{"string", "float", "liststring", ""}[t.Choose(simrt.KValue, 4)], Default: jxXStr(t), Options: jxXStr(t)})
 		}
 		gr.Attributes = append(gr.Attributes, as)
 	}
-	nn, ne := t.Choose(simrt.KWorkload, 3), t.Choose(simrt.KWorkload, 3)
+	nn, ne := t.Choose(simrt.KWorkload, 3), t.Choose(simrt.KWorkload, 2)
 	for i := 0; i < nn; i++ {
 		gr.Nodes.Nodes = append(gr.Nodes.Nodes, jxGexfNode(t, i, 0))
 	}
@@ -520,15 +520,15 @@ func jxRunGexf(c *Ctx) *Violation {
 		gr.Nodes.Count = nn
 	}
 	for i := 0; i < ne; i++ {
-		e := gexf12.Edge{ID: jxID(t, jxXMLStrings, i), Source: jxID(t, jxXMLStrings, 0), Target: jxID(t, jxXMLStrings, 1), AttValues: jxAttValues(t), Spells: jxSpells(t, 5), Color: jxColor(t),
+		e := gexf12.Edge{ID: jxID(t, jxXMLStrings, i), Source: jxID(t, jxXMLStrings, 0), Target: jxID(t, jxXMLStrings, 1), AttValues: jxAttValues(t), Spells: jxSpells(t, 8), Color: jxColor(t),
 			Weight: []float64{0, 1, 2.5, -1e-9, 1e300}[t.Choose(simrt.KValue, 5)], Type: gr.DefaultEdgeType}
 		if jxOpt(t, 4) {
 			e.Label = jxXStr(t)
 		}
-		if jxOpt(t, 4) {
+		if jxOpt(t, 6) {
 			e.Thickness = &gexf12.Thickness{Value: jxFloats[t.Choose(simrt.KValue, len(jxFloats))], Spells: jxSpells(t, 3)}
 		}
-		if jxOpt(t, 4) {
+		if jxOpt(t, 6) {
 			e.Shape = &gexf12.Edgeshape{Shape: []string{"solid", "dotted", ""}[t.Choose(simrt.KValue, 3)], Spells: jxSpells(t, 4), End: jxXStr(t)}
 		}
 		gr.Edges.Edges = append(gr.Edges.Edges, e)
